@@ -41,6 +41,11 @@ func (s *sharedEntryAttributes) toJsonInternal(onlyNewOrUpdated bool, ietf bool)
 		// ancestor is a list with keys.
 		result := map[string]any{}
 
+		// a list entry that is deleted as a whole is not part of the config
+		if s.deletesWholeListEntry() && s.hasAllKeyLeafs() {
+			return nil, nil
+		}
+
 		for key, c := range s.filterActiveChoiceCaseChilds() {
 			ancest, _ := s.GetFirstAncestorWithSchema()
 			prefixedKey := jsonGetIetfPrefixConditional(key, c, ancest, ietf)
@@ -110,6 +115,10 @@ func (s *sharedEntryAttributes) toJsonInternal(onlyNewOrUpdated bool, ietf bool)
 				}
 			}
 			if len(result) == 0 {
+				// a presence container carries a value itself, independent of its childs
+				if s.schema.GetContainer().IsPresence && !s.leafVariants.shouldDelete() && s.leafVariants.GetHighestPrecedence(onlyNewOrUpdated, false) != nil {
+					return result, nil
+				}
 				return nil, nil
 			}
 			return result, nil
